@@ -83,7 +83,7 @@ func init() {
 				cse.TimeoutMS = 60000
 				cs = append(cs, cse)
 			}
-			for i, s := range []string{"blocked-stop", "parked-dispatch", "cancel-blocked-stop", "restart-rearm", "restart-from-last", "stop-at-once", "double-stop"} {
+			for i, s := range []string{"blocked-stop", "parked-dispatch", "cancel-blocked-stop", "restart-rearm", "restart-from-last", "stop-at-once", "double-stop", "long-blocked-stop", "zero-delay-middle"} {
 				reps := 2
 				if tier == "thorough" {
 					reps = 8
@@ -92,6 +92,12 @@ func init() {
 					p := c18Params{Script: s, Scheds: []c18Sched{{0, 5}, {300, 20}}, Desc: "script=" + s}
 					if s == "restart-from-last" {
 						p.Scheds = []c18Sched{{0, 5}, {150, 20}}
+					}
+					if s == "zero-delay-middle" {
+						p.Scheds = []c18Sched{{0, 5}, {0, 7}, {900, 3}}
+					}
+					if s == "long-blocked-stop" && rep > 0 {
+						continue // 6.5 s each: one per tier run
 					}
 					cse := core.MkCase("C18", "script", i*10+rep, seed, p)
 					cse.Race = rep%2 == 0
@@ -414,6 +420,61 @@ func c18Script(c *core.Case, o *core.Outcome) {
 		}
 		if infl.Load() != 0 {
 			o.Violate(key, "function in flight when Stop returned")
+			return
+		}
+	case "zero-delay-middle":
+		// a schedule with start delay 0 in the middle of the list takes over at once; the one after it still
+		// waits for its own start delay
+		rc := &c18Rec{l: l}
+		tNew := l.Now()
+		runner, _ := raterun.New(rc.c18fn, c18Schedules(&p))
+		runner.Start(ctx)
+		time.Sleep(450 * time.Millisecond)
+		runner.Stop()
+		last := p.Scheds[len(p.Scheds)-1]
+		rc.mu.Lock()
+		invs := append([]c18Inv{}, rc.invs...)
+		rc.mu.Unlock()
+		sawMiddle := false
+		for i, in := range invs {
+			if in.freq == time.Duration(p.Scheds[1].FreqMS)*time.Millisecond {
+				sawMiddle = true
+			}
+			if in.freq == time.Duration(last.FreqMS)*time.Millisecond && in.begin < tNew+time.Duration(last.DelayMS)*time.Millisecond {
+				o.Violate(key, "schedules %v: invocation %d ran at the last schedule's frequency %v after New, before that schedule's start delay of %d ms had elapsed", p.Scheds, i, in.begin-tNew, last.DelayMS)
+				return
+			}
+		}
+		if !sawMiddle {
+			o.Inconc("the zero-delay schedule was never observed")
+			return
+		}
+		o.AddObs("invocations", int64(len(invs)))
+	case "long-blocked-stop":
+		// the function stays blocked for 6.5 s after Stop was called: Stop has not returned by then
+		rc := &c18Rec{l: l, gate: make(chan struct{}), entered: make(chan struct{})}
+		runner, _ := raterun.New(rc.c18fn, c18Schedules(&p))
+		runner.Start(ctx)
+		select {
+		case <-rc.entered:
+		case <-time.After(10 * time.Second):
+			o.Inconc("function never invoked")
+			cancel()
+			return
+		}
+		done, infl := stopInGoroutine(runner, rc)
+		select {
+		case <-done:
+			close(rc.gate)
+			o.Violate(key, "Stop returned while the function was still executing, %v after it was called (in flight at return: %d)", l.Now(), infl.Load())
+			return
+		case <-time.After(6500 * time.Millisecond):
+		}
+		close(rc.gate)
+		select {
+		case <-done:
+		case <-time.After(10 * time.Second):
+			o.Violate(key+"-hang", "Stop did not return within 10 s after the function finished")
 			return
 		}
 	case "double-stop":
